@@ -500,6 +500,18 @@ def check_default_src(ctx):
             c.expr) == 'default_rule is None']
         given = given + notnone
         if isinstance(v, ast.BoolOp) and isinstance(v.op, ast.Or) and len(
+                v.values) == 2 and isinstance(v.values[1], ast.Call) and \
+                not v.values[1].args and not v.values[1].keywords:
+            # the option read through a one-line accessor of the enforcer
+            g = prog.callee_of(init, v.values[1])
+            body = [b for b in g.node.body if not (
+                isinstance(b, ast.Expr) and isinstance(
+                    b.value, ast.Constant))] if g is not None else []
+            if len(body) == 1 and isinstance(body[0], ast.Return) and \
+                    body[0].value is not None:
+                v = ast.BoolOp(op=ast.Or(), values=[v.values[0],
+                                                    body[0].value])
+        if isinstance(v, ast.BoolOp) and isinstance(v.op, ast.Or) and len(
                 v.values) == 2 and U(v.values[0]) == 'default_rule' and U(
                     v.values[1]).endswith(opt_tail):
             continue
